@@ -320,7 +320,8 @@ func (s *clientSocket) sendConnectPacket(authData any) {
 				m[k] = v
 			}
 		}
-		v = m
+		// Encode accepts only pointers.
+		v = &m
 	} else if authData != nil {
 		v = &authData
 	}
